@@ -4,4 +4,5 @@ import PfdlModel.Sched
 import PfdlModel.Api
 import PfdlModel.Check
 import PfdlModel.ExprParse
+import PfdlModel.Surface
 import PfdlModel.Denter
